@@ -998,6 +998,36 @@ func (r *txRun) doForm(f *TxForm) *Violation {
 	if len(tx.InitiatorSigns) > 0 {
 		r.prevSig[signers[0].Addr] = tx.InitiatorSigns[0]
 	}
+	// While the honest transaction is pending, a producer's block carries DIFFERENT content under its
+	// id (a node skips verifying block transactions it already holds as pending). Whatever the node
+	// does with that block, its ledger must not end up holding content no client signed.
+	if len(tx.TxOutputs) > 0 && (r.step+int(r.plan.Seed))%2 == 0 {
+		for _, marked := range []bool{false, true} {
+			forged := CloneTx(tx)
+			forged.TxOutputs[0].ToAddr = []byte(Accts[7].Addr)
+			if marked {
+				forged.ModifyBlock = &lpb.ModifyBlock{Marked: true}
+			}
+			r.rc.St.Probes["pending-txid-reused-in-block"]++
+			tw, err := r.n.Twin()
+			if err != nil {
+				panic(err)
+			}
+			time.Sleep(time.Millisecond)
+			if blk, err := tw.PackBlock(MineOpts{MaxTx: -1, Txs: []*lpb.Transaction{forged}}); err == nil {
+				blk = CloneBlock(blk)
+				tw.Chain.ProcBlock(tw.BaseCtx(), blk)
+				// (the ledger stores a block before the state machine judges its body; only a block the state
+				// machine APPLIED counts as accepted)
+				if lt, err := tw.L.QueryTransaction(tx.Txid); err == nil && bytes.Equal(tw.S.GetLatestBlockid(), blk.Blockid) && !bytes.Equal(semanticBytes(lt), semanticBytes(tx)) {
+					in := tw.L.IsTxInTrunk(tx.Txid)
+					tw.Drop()
+					return r.viol("ledger-holds-unsigned-content", "a block carrying different content under the id of the pending transaction %s (first output redirected, marked=%v) was APPLIED by the state machine; the ledger now answers QueryTransaction with the forged content (in trunk: %v)", hx(tx.Txid), marked, in)
+				}
+			}
+			tw.Drop()
+		}
+	}
 	if f.Mine {
 		time.Sleep(time.Second)
 		if _, err := r.n.Mine(MineOpts{MaxTx: -1}); err != nil {
